@@ -209,6 +209,59 @@ std::string stress_input(const std::string &fam, long n) {
 		for (long i = 0; i < n; i++) s += "\tint m" + std::to_string(i) + (i % 5 == 0 ? " : 3" : "") + ";\n";
 		s += "};\nstruct big b = { 1, 2 };\nint get(struct big *p) { return p->m" + std::to_string(n > 0 ? n - 1 : 0) + "; }\n";
 		if (n == 0) s = "struct e { int x; } b;\n";
+	} else if (fam == "opmatrix") {
+		// every operator / conversion / statement context against every category of operand type:
+		// knob = ((form * NT) + i) * NT + j.  Most combinations are constraint violations - the
+		// point is that each is either compiled or diagnosed, never a crash.
+		struct Ty { const char *decl; const char *expr; };
+		static const Ty T[] = {
+			{"char v%d;", "v%d"}, {"unsigned char v%d;", "v%d"}, {"short v%d;", "v%d"}, {"int v%d;", "v%d"},
+			{"unsigned v%d;", "v%d"}, {"long v%d;", "v%d"}, {"unsigned long long v%d;", "v%d"}, {"_Bool v%d;", "v%d"},
+			{"float v%d;", "v%d"}, {"double v%d;", "v%d"}, {"int *v%d;", "v%d"}, {"void *v%d;", "v%d"},
+			{"const char *v%d;", "v%d"}, {"struct S { int a; char b; } v%d;", "v%d"}, {"union U { int a; double d; } v%d;", "v%d"},
+			{"enum E { EA, EB } v%d;", "v%d"}, {"int v%d[3];", "v%d"}, {"int v%d(void);", "v%d"}, {"void v%d(void);", "v%d()"},
+			{"int v%d_unused;", "nullptr"}, {"struct BF { int f : 3; unsigned g : 5; } v%d;", "v%d.f"}, {"struct INC *v%d;", "*v%d"},
+			{"int (*v%d)(int);", "v%d"}, {"long double v%d;", "v%d"}, {"int v%d_unused2;", "\"str\""}, {"int v%d_unused3;", "'c'"},
+			{"int v%d_unused4;", "1.5f"}, {"int v%d_unused5;", "0"}, {"int v%d_unused6;", "(void)0"}, {"struct S2 { int x[2]; struct { int y; }; } *v%d;", "v%d->y"},
+		};
+		const long NT = (long)(sizeof T / sizeof *T);
+		static const char *binops[] = {"+", "-", "*", "/", "%", "<<", ">>", "<", ">", "<=", ">=", "==", "!=", "&", "|", "^", "&&", "||", ","};
+		static const char *asgops[] = {"=", "+=", "-=", "*=", "/=", "%=", "<<=", ">>=", "&=", "|=", "^="};
+		static const char *unops[] = {"-", "+", "!", "~", "*", "&", "++", "--", "sizeof ", "_Alignof ", "(void)", "post++", "post--"};
+		const long NB = 19, NA = 11, NU = 13;
+		long j = n % NT, i = (n / NT) % NT, form = n / (NT * NT);
+		auto decl = [&](long t, int id) { char b[160]; std::string d = T[t].decl; std::string r; for (size_t k = 0; k < d.size(); k++) { if (d[k] == '%' && k + 1 < d.size() && d[k + 1] == 'd') { r += std::to_string(id); k++; } else r += d[k]; } (void)b; return r; };
+		auto expr = [&](long t, int id) { std::string d = T[t].expr; std::string r; for (size_t k = 0; k < d.size(); k++) { if (d[k] == '%' && k + 1 < d.size() && d[k + 1] == 'd') { r += std::to_string(id); k++; } else r += d[k]; } return r; };
+		// distinct tag names per operand so that the same aggregate type can appear twice
+		auto fix = [&](std::string d, int id) { for (const char *tag : {"struct S ", "union U ", "enum E ", "struct BF ", "struct S2 "}) { size_t p = d.find(tag); if (p != std::string::npos) d.insert(p + strlen(tag) - 1, std::to_string(id)); } size_t q; while ((q = d.find("EA")) != std::string::npos) d.replace(q, 2, "XA" + std::to_string(id)); while ((q = d.find("EB")) != std::string::npos) d.replace(q, 2, "XB" + std::to_string(id)); return d; };
+		s = fix(decl(i, 1), 1) + "\n" + fix(decl(j, 2), 2) + "\n";
+		std::string a = expr(i, 1), b = expr(j, 2);
+		if (form < NB) s += "void f(void) { (void)(" + a + " " + binops[form] + " " + b + "); }\n";
+		else if (form < NB + NA) s += "void f(void) { " + a + " " + asgops[form - NB] + " " + b + "; }\n";
+		else if (form < NB + NA + NU) {
+			std::string u = unops[form - NB - NA];
+			if (u.compare(0, 4, "post") == 0) s += "void f(void) { (void)(" + a + u.substr(4) + "); (void)(" + b + u.substr(4) + "); }\n";
+			else s += "void f(void) { (void)(" + u + a + "); (void)" + u + "(" + b + "); }\n";
+		} else {
+			switch (form - NB - NA - NU) {
+			case 0: s += "void f(void) { (void)(" + a + " ? " + b + " : " + a + "); (void)(" + b + " ? " + a + " : " + b + "); }\n"; break;
+			case 1: s += "void f(void) { (void)((typeof(" + a + "))" + b + "); }\n"; break;
+			case 2: s += "typeof(" + a + ") g(typeof(" + b + ") p) { return p; }\n"; break;
+			case 3: s += "void g(typeof(" + a + ") p); void f(void) { g(" + b + "); }\n"; break;
+			case 4: s += "void f(void) { typeof(" + a + ") loc = " + b + "; (void)loc; }\n"; break;
+			case 5: s += "typeof(" + a + ") glob = " + b + ";\n"; break;
+			case 6: s += "void f(void) { if (" + a + ") { while (" + b + ") break; } }\n"; break;
+			case 7: s += "int f(void) { switch (" + a + ") { case 1: return 1; default: for (; " + b + ";) return 2; } return 0; }\n"; break;
+			case 8: s += "void f(void) { (void)(" + a + ")[" + b + "]; }\n"; break;
+			case 9: s += "void f(void) { (void)(" + a + ").a; (void)(" + b + ")->a; }\n"; break;
+			case 10: s += "void f(void) { (void)" + a + "(" + b + "); }\n"; break;
+			case 11: s += "void f(void) { typeof(" + a + ") arr[2] = { " + b + " }; struct W { typeof(" + b + ") m; int n; } w = { " + a + " }; (void)arr; (void)w; }\n"; break;
+			case 12: s += "_Static_assert(sizeof(" + a + ") + _Alignof(typeof(" + b + ")), \"x\");\nint z = _Generic(" + a + ", typeof(" + b + "): 1, default: 2);\n"; break;
+			case 13: s += "void f(int n) { typeof(" + a + ") vla[n]; (void)sizeof(vla); (void)(vla + " + b + "); }\n"; break;
+			case 14: s += "void f(void) { do (void)" + a + "; while (!" + b + "); }\nint g(void) { return " + a + "; }\n"; break;
+			default: s += "void f(void) { __builtin_va_list ap; (void)__builtin_va_arg(ap, typeof(" + a + ")); (void)__builtin_expect(" + a + ", " + b + "); (void)__builtin_constant_p(" + b + "); }\n"; break;
+			}
+		}
 	} else if (fam == "switchfib") {
 		// case labels inserted in level order of a minimal AVL (Fibonacci) tree of height n:
 		// the tallest tree a given number of labels can produce, built without a single rotation
@@ -400,6 +453,11 @@ static void load_corpus() {
 }
 
 struct StressFam { const char *name; std::vector<long> knobs; bool pponly; };
+static std::vector<long> opmatrix_knobs() {
+	std::vector<long> v;
+	for (long k = 0; k < (19 + 11 + 13 + 16) * 30L * 30L; k++) v.push_back(k);
+	return v;
+}
 static const std::vector<StressFam> &stress_fams() {
 	static std::vector<StressFam> f = {
 		{"longident", {1, 63, 64, 255, 256, 257, 1000, 5000, 100000}, false},
@@ -422,6 +480,7 @@ static const std::vector<StressFam> &stress_fams() {
 		{"longcomment", {255, 256, 4096, 100000}, false},
 		{"structmembers", {1, 32, 33, 65, 500}, false},
 		{"switchfib", {3, 8, 13, 18, 22, 25}, false},
+		{"opmatrix", opmatrix_knobs(), false},
 		{"anondesig", {0, 1, 2, 14, 15, 16, 17, 29, 30, 31, 32, 33, 34, 40, 64}, false},
 		{"mixdesig", {0, 1, 8, 15, 16, 17, 18, 30, 31, 32, 33, 40}, false},
 		{"macrorepl", {0, 1, 2, 3, 4, 5, 6, 7, 10, 11, 12, 13, 23, 24, 25, 26, 49, 50, 51, 52, 101, 102, 103, 300}, true},
